@@ -738,6 +738,31 @@ def run_selctx(r, obs, ctl):
                                 "SelectContext(%r, %s, raise_on_error=%r) on context %r -> %r, "
                                 "expected %r" % (key_notation(form, p), pred, roe, ctx, got, exp))
     obs.nontrivial = len(seen) >= 2
+    # keys that contain a dot: nameable by a list of keys (and a one-key-per-level dictionary),
+    # where they are one component - never split again
+    dotted_ctxs = [{"a.b": 5, "a": {"b": {"x": 1}}}, {"a": {"b": 5}},
+                   {"output": {"plot.type": {"k": 1}, "plot": {"type": 5}}},
+                   {"a.b": {"c.d": [1, 2]}}]
+    dotted_paths = [["a.b"], ["a", "b"], ["output", "plot.type"], ["output", "plot", "type"],
+                    ["a.b", "c.d"], ["a", "b.c"]]
+    for ctx in dotted_ctxs:
+        for p in dotted_paths:
+            for form in ("list", "dict"):
+                for pred in PREDS:
+                    for roe in (True, False):
+                        node = ["selctx", form, p, pred, roe]
+                        value_r = [1, ctx]
+                        st = Stats()
+                        exp = outcome(lambda: ev(node, make_value(value_r), roe, st))
+                        sc = build(node, roe)
+                        got = outcome(lambda: sc(make_value(value_r)))
+                        obs.count("selectcontext_evaluations")
+                        ctl.evals += 1
+                        if got != exp:
+                            ctl.fail("selectcontext-wrong-result:key-component-with-a-dot",
+                                     "SelectContext(%r, %s, raise_on_error=%r) on context %r -> "
+                                     "%r, expected %r"
+                                     % (key_notation(form, p), pred, roe, ctx, got, exp))
 
 
 # ------------------------------------------------------------------ GroupBy
